@@ -867,6 +867,37 @@ static void cfg_init_defaults(cfg_t *cfg)
 	}
 }
 
+/* strtol() on its own also takes leading white space, a sign after the
+ * radix prefix and, in base 16, a second "0x": is s nothing but digits? */
+static int cfg_digits_ok(const char *s, int radix)
+{
+	if (radix == 0) {
+		/* decimal: an optional sign, the rest is left to strtol() */
+		if (*s == '-' || *s == '+')
+			s++;
+		return isdigit((unsigned char)*s) != 0;
+	}
+
+	/* "0x" and "0b" alone are not numbers, "0" is */
+	if (!*s)
+		return radix == 8;
+
+	for (; *s; s++) {
+		int d;
+
+		if (isdigit((unsigned char)*s))
+			d = *s - '0';
+		else if (isalpha((unsigned char)*s))
+			d = tolower((unsigned char)*s) - 'a' + 10;
+		else
+			return 0;
+		if (d >= radix)
+			return 0;
+	}
+
+	return 1;
+}
+
 DLLIMPORT cfg_value_t *cfg_setopt(cfg_t *cfg, cfg_opt_t *opt, const char *value)
 {
 	cfg_value_t *val = NULL;
@@ -916,6 +947,11 @@ DLLIMPORT cfg_value_t *cfg_setopt(cfg_t *cfg, cfg_opt_t *opt, const char *value)
 						int_str = &value[1];
 				}
 			}
+			if (!cfg_digits_ok(int_str, radix)) {
+				cfg_error(cfg, _("invalid integer value for option '%s'"), opt->name);
+				return NULL;
+			}
+			errno = 0;
 			i = strtol(int_str, &endptr, radix);
 			if (*endptr != '\0') {
 				cfg_error(cfg, _("invalid integer value for option '%s'"), opt->name);
@@ -937,13 +973,20 @@ DLLIMPORT cfg_value_t *cfg_setopt(cfg_t *cfg, cfg_opt_t *opt, const char *value)
 				errno = EINVAL;
 				return NULL;
 			}
+			errno = 0;
 			f = strtod(value, &endptr);
-			if (*endptr != '\0') {
+			/* strtod() alone also takes "" and leading white space */
+			if (*endptr != '\0' || endptr == value || isspace((unsigned char)value[0])) {
 				cfg_error(cfg, _("invalid floating point value for option '%s'"), opt->name);
 				return NULL;
 			}
 			if (errno == ERANGE) {
 				cfg_error(cfg, _("floating point value for option '%s' is out of range"), opt->name);
+				return NULL;
+			}
+			/* ... and the words inf and nan, which are not numbers */
+			if (f != f || f - f != 0) {
+				cfg_error(cfg, _("invalid floating point value for option '%s'"), opt->name);
 				return NULL;
 			}
 		}
